@@ -49,6 +49,7 @@ package keeper
 
 // verif:func (Keeper).ConvertCoin
 //@ let ctx = sdk.UnwrapSDKContext(goCtx)
+//@ requires [registry-inv3] denomsListed(aggregate(ctx))
 //@ modifies world(ctx)
 //@ callsite MintingEnabled [guard-of-this-message] dollar_sender == first(sdk.AccAddressFromBech32(msg.Sender)) && dollar_receiver == common.HexToAddress(msg.Receiver).Bytes() && token == msg.Coin.Denom && denom == msg.Coin.Denom
 //@ callsite convertCoinNativeCoin [guarded-same-message] ncalls("MintingEnabled") == 1 && callsok("MintingEnabled") && pair == callres("MintingEnabled", 0) && dollar_msg == msg && dollar_receiver == common.HexToAddress(msg.Receiver) && dollar_sender == first(sdk.AccAddressFromBech32(msg.Sender)) && pair.IsNativeCoin()
@@ -58,6 +59,7 @@ package keeper
 
 // verif:func (Keeper).ConvertERC20
 //@ let ctx = sdk.UnwrapSDKContext(goCtx)
+//@ requires [registry-inv3] denomsListed(aggregate(ctx))
 //@ modifies world(ctx)
 //@ callsite MintingEnabled [guard-of-this-message] dollar_sender == common.HexToAddress(msg.Sender).Bytes() && dollar_receiver == first(sdk.AccAddressFromBech32(msg.Receiver)) && token == msg.ContractAddress && denom == msg.Denom
 //@ callsite convertERC20NativeCoin [guarded-same-message] ncalls("MintingEnabled") == 1 && callsok("MintingEnabled") && pair == callres("MintingEnabled", 0) && dollar_msg == msg && dollar_receiver == first(sdk.AccAddressFromBech32(msg.Receiver)) && dollar_sender == common.HexToAddress(msg.Sender) && pair.IsNativeCoin()
@@ -70,6 +72,7 @@ package keeper
 // verif:import common github.com/ethereum/go-ethereum/common
 
 // verif:func (Keeper).OnRecvPacket
+//@ requires [registry-inv3] denomsListed(aggregate(ctx))
 //@ modifies world(ctx)
 //@ ensures [returns-ack]            result == ack
 //@ ensures [atomic]                 ncalls("ConvertCoin") == 1 && !callsok("ConvertCoin") ==> unchanged(ctx)
@@ -198,6 +201,12 @@ package keeper
 
 // idsConsistent: every stored pair sits under its own id (part of the registry invariant; preserved by every
 // writer because pairs are only ever stored by SetTokenPair under pair.GetID()).
+// every denomination entry points to a pair that lists the denomination (part of C12's statement; used as a module
+// invariant by the conversion guard, C11).  Its preservation by the registry mutators follows from their proved
+// whole-view clauses ([reg-denoms], [only-its-entries], [all-denoms-reindexed], DeleteTokenPair's clauses) but the
+// quantifier-alternating preservation obligation itself did not discharge inside the time budget (solvers return
+// unknown), so it is an assumed precondition, listed in the evidence
+// verif:pred denomsListed(m) := forall d string :: kvhas(m, denomKey(d)) && kvhas(m, pairKey(kvget(m, denomKey(d)))) ==> exists j int :: 0 <= j && j < len(pbunmarshal_TokenPair(kvget(m, pairKey(kvget(m, denomKey(d))))).Denoms) && pbunmarshal_TokenPair(kvget(m, pairKey(kvget(m, denomKey(d))))).Denoms[j] == d
 // verif:pred idsConsistent(m) := forall id Bytes :: kvhas(m, pairKey(id)) ==> pbunmarshal_TokenPair(kvget(m, pairKey(id))).GetID() == id
 // verif:func (Keeper).ToggleRelay
 //@ nopanic dryrun
@@ -239,6 +248,8 @@ package keeper
 // the guard of every conversion: module and pair enabled, token and denomination belong to the same registered pair,
 // the receiver is not a blocked address
 // verif:func (Keeper).MintingEnabled
+//@ requires [registry-inv3] denomsListed(aggregate(ctx))
+//@ ensures [denom-of-the-pair] result1 == nil && !common.IsHexAddress(denom) ==> exists j int :: 0 <= j && j < len(result0.Denoms) && result0.Denoms[j] == denom
 //@ ensures [module-enabled] result1 == nil ==> ncalls("GetParams") == 1 && callres("GetParams", 0).EnableAggregate
 //@ ensures [pair-enabled] result1 == nil ==> result0.Enabled
 //@ ensures [registered-pair] result1 == nil ==> ncalls("GetTokenPair") == 1 && callres("GetTokenPair", 1) && result0 == callres("GetTokenPair", 0)
